@@ -33,6 +33,16 @@ ALLOW = ("bounds", "scaling", "proj", "avg", "soft", "hard", "npt", "growing", "
 
 
 def mutate(rng, prob, kw, d):
+    if kw.get("scaling_within_bounds") and "h" not in kw and rng.random() < 0.3:
+        # a regulariser together with internal scaling (the base generator keeps them apart): h must always see the user's
+        # coordinates, also where a stored or saved objective is recomputed
+        lam = float(10 ** rng.uniform(-2, 0))
+        kw["h"] = lambda x, lam=lam: lam * float(np.sum(np.abs(x)))
+        kw["lh"] = lam * float(np.sqrt(prob["n"]))
+        kw["prox_uh"] = lambda x, u, lam=lam: np.sign(x) * np.maximum(np.abs(x) - lam * u, 0.0)
+        kw["maxfun"] = min(kw["maxfun"], 60)
+        d["maxfun"] = kw["maxfun"]
+        d["regu"] = lam
     # hard restarts whose later runs still improve: loose rhoend so that a run ends with budget left
     if d.get("restarts") != "soft" and rng.random() < 0.12:
         up = dict(kw.get("user_params", {}) or {})
